@@ -4,7 +4,7 @@
 
 use crate::spec::avp as sa;
 use crate::spec::bytes_eq;
-use crate::{check, nd, witness};
+use crate::{check, nd, require, witness};
 use rl2tp::avp::AVP;
 use rl2tp::common::{DecodeError as DE, SliceReader};
 
@@ -172,7 +172,7 @@ pub fn dispatch_body<const N: usize>() {
     }
     let rec = &buf[..6 + N];
     let res = AVP::try_read_greedy(&mut SliceReader::from(rec));
-    check!(res.len() == 1, "C05,C15: a single well-delimited record yields exactly one result");
+    require!(res.len() == 1, "C05,C15: a single well-delimited record yields exactly one result");
     let spec = sa::spec_leaf(t, &rec[6..]);
     check!(res[0].is_ok() == spec.ok, "C05,C16: an attribute type / payload is accepted iff the specification accepts it (assigned types 0-19, 21-39 only)");
     check!(sa::result_matches(&res[0], &spec), "C05,C16,C20: every attribute type number dispatches to the AVP kind RFC 2661 assigns to it, with the specified value or error (UnknownAvp(type) when unassigned)");
